@@ -133,6 +133,10 @@ func (f *Track3) unpack(raw []byte) error {
 		return errors.New("invalid track data")
 	}
 
+	// forget the components of a previously unpacked value: groups that are
+	// empty after trimming below must not keep their old content
+	f.FormatCode, f.PrimaryAccountNumber, f.DiscretionaryData = "", "", ""
+
 	matches := track3Regex.FindStringSubmatch(string(raw))
 	for index, val := range matches {
 		value := strings.TrimSpace(val)
